@@ -375,6 +375,7 @@ pub fn replay(sc: &Value) -> Value {
                     if !sent.is_empty() {
                         add("C03", "rejected-not-sent", format!("a value that must be rejected was sent: {:?}", sent));
                         add("C02", "rejected-not-sent", format!("a value that must be rejected was sent: {:?}", sent));
+                        add("C01", "rejected-not-sent", format!("a value that does not fit the wire type was sent as {:?}: the line does not parse back to the supplied value", sent));
                         if tokens.is_none() && vals.is_empty() {
                             add("C01", "at-least-one-value", format!("a line without a value was sent: {:?}", sent));
                         }
